@@ -214,9 +214,29 @@ SrcVecOps == {"ElemFromRef", "ElemFromRvRef", "ElemAssignFromRef", "ElemAssignFr
 TouchedVecs(e) ==
   IF e.n \in ElemOps THEN (IF e.n \in {"ElemFromRvRef", "ElemAssignFromRvRef"} THEN {e.a[1]} ELSE {})
   ELSE {e.v} \cup (IF e.n \in VecOps2 THEN {e.a[1]} ELSE {})
+             \cup (IF e.n \in {"RefMoveAssign", "RefSwap", "IterSwap"} THEN {e.a[2]} ELSE {})
+             \cup (IF e.n = "SwapRanges" THEN {e.a[3]} ELSE {})
 TouchedEls(e) ==
   IF e.n \in ElemOps THEN {e.v} \cup (IF e.n \in ElemOps2 THEN {e.a[1]} ELSE {})
   ELSE IF e.n = "RefAssignFromRvElem" THEN {e.a[2]} ELSE {}
+
+(* C11: iterator arithmetic and comparisons are integer arithmetic on indices.  A row of the logged table is     *)
+(* <<i, j, it_j - it_i, <, <=, ==, >, >=, !=, (it_i + (j-i)).index, (it_j - (j-i)).index, const it index,        *)
+(*   const == mutable, (++it_i).index, (--it_i).index, (it_i++).index>>  for all 0 <= i, j <= size               *)
+B2I(b) == IF b THEN 1 ELSE 0
+JudgeIterTable(e, n) ==
+  IF e.n # "IterProbe" THEN {}
+  ELSE Bad(/\ Len(e.itab) = (n + 1) * (n + 1)
+           /\ \A q \in 1..Len(e.itab) :
+                LET r == e.itab[q]  i == r[1]  j == r[2] IN
+                /\ r[3] = j - i
+                /\ r[4] = B2I(i < j) /\ r[5] = B2I(i <= j) /\ r[6] = B2I(i = j)
+                /\ r[7] = B2I(i > j) /\ r[8] = B2I(i >= j) /\ r[9] = B2I(i # j)
+                /\ r[10] = j /\ r[11] = i /\ r[12] = i /\ r[13] = 1
+                /\ r[14] = (IF i < n THEN i + 1 ELSE -1)
+                /\ r[15] = (IF i > 0 THEN i - 1 ELSE -1)
+                /\ r[16] = (IF i < n THEN i ELSE -1)
+           /\ {<<e.itab[q][1], e.itab[q][2]>> : q \in 1..Len(e.itab)} = (0..n) \X (0..n), "ITERATOR_ARITHMETIC")
 
 (* C16: address stability.  keep = number of leading elements that must not move *)
 SameAddrs(E1, E2, keep) ==
@@ -319,6 +339,9 @@ StepOp(e) ==
           \cup lg.bad \cup lf.bad
           \cup UNION {JudgeVec(R.vec[v], ObsOf(e, v), exa[v]) : v \in Vecs}
           \cup UNION {JudgeEl(R.el[x], EObsOf(e, x)) : x \in Elems}
+          \cup (IF e.n = "IterProbe" THEN JudgeIterTable(e, Len(R.vec[e.v].elems)) ELSE {})
+          \* proxies never (re)allocate or move anything (C11, C16)
+          \cup (IF e.n \in RefOps THEN Bad(NumAllocEvents(e.sub) = 0, "ALLOCATOR_USED") ELSE {})
           \* every live container owns its own block (C09 / C12 independence)
           \cup (LET blks == [c \in (Vecs \X {"v"}) \cup (Elems \X {"e"}) |->
                               LET o == IF c[2] = "v" THEN ObsOf(e, c[1]) ELSE EObsOf(e, c[1]) IN
